@@ -4,6 +4,7 @@ import LP.Props.C13IntersectNF
 import LP.Props.C13PointInt
 import LP.Props.C13Hull
 import LP.Props.C13StatusIff
+import LP.Props.C13CountSat
 import LP.Props.C13Obs
 import LP.Props.GenTables
 import LP.Props.C13
@@ -53,3 +54,6 @@ import LP.Props.C13Int
 #print axioms LP.FSet.C13_status_s1_iff
 #print axioms LP.FSet.C13_status_s2_iff
 #print axioms LP.FSet.C13_status_new_or_empty
+#print axioms LP.FSet.finite_ints
+#print axioms LP.FSet.C13_countInt_saturated
+#print axioms LP.FSet.C13_set_countInt_saturated
